@@ -243,7 +243,7 @@ def execute(frame: bytes, driver: str, mix: str):
             await ac.apply()
             await ac.toggle_display()
             await ac.refresh()
-            tally["rejected"] = [r[1] for r in dev_model.rejected[r0:]]
+            tally["rejected"] = [r[1] for r in dev_model.rejected[r0:] if not r[1].startswith("unknown")]
             tally["online"] = ac.online
             tally["diff"] = diff_view(client_view_of(dev_model.state), ac)
         elif driver in ("get_capabilities", "get_capabilities-2nd"):
@@ -392,8 +392,9 @@ def run_orders(st: Stats):
                 prob = None
                 if out[0] != "ok":
                     prob = f"raised {type(out[1]).__name__}"
-                elif dev.rejected:
-                    prob = f"sent a command the unit rejects: {dev.rejected[0][1]}"
+                elif [r for r in dev.rejected if not r[1].startswith("unknown")]:
+                    # (a command kind the reference unit does not know is C12's business, not a containment failure)
+                    prob = f"sent a malformed command: {[r for r in dev.rejected if not r[1].startswith('unknown')][0][1]}"
                 if prob:
                     st.violation(f"operation order on a well-formed unit ({uname}): {prob.split(':')[0]}", case, "no operation raises", prob, str(out[1])[:200])
                 st.ev(("orders", uname, order, repeat), "contained" if not prob else "escaped", True)
